@@ -18,13 +18,13 @@ for n in 1 2 3; do
     bash "$OUT/m$n-demo.sh" /tmp/fselect-mut-$PID-$n >/tmp/seedlog-$PID-$n-mut.txt 2>&1; m=$?
     echo "$res base_demo_exit=$b tests_ok=$t mutant_demo_exit=$m"
     if [ $b -eq 0 ] && [ "$t" = "1" ] && [ $m -ne 0 ]; then
-      d=/verif/seeded/$PID-m$n; mkdir -p $d
+      d=/verif/seeded/$PID-${TAG}m$n; mkdir -p $d
       cp "$OUT/m$n.diff" $d/patch.diff; cp "$OUT/m$n-demo.sh" $d/demo.sh; cp "$OUT/m$n.txt" $d/description.txt
       python3 - "$PID" "$n" "$d" <<'PY'
 import json,sys
 pid,n,d=sys.argv[1:]
 desc=open(d+'/description.txt').read()
-json.dump({'property':pid,'mutant':'m'+n,'needs_to_manifest':desc.strip(),
+json.dump({'property':pid,'mutant':__import__('os').environ.get('TAG','')+'m'+n,'needs_to_manifest':desc.strip(),
  'confirmed':{'ran':'tools/confirm_seed.sh: cargo build --offline; demo.sh on unmodified binary (exit 0); git apply patch.diff; cargo build; cargo test --offline (137 passed); demo.sh on mutated binary (exit != 0)',
               'base_demo_exit':0,'tests':'137 passed','mutant_demo_exit':'non-zero'},
  'detected_by':None},open(d+'/meta.json','w'),indent=1)
